@@ -37,3 +37,22 @@ func init() {
 		return 0
 	}
 }
+
+func init() {
+	checks["dbgtwin"] = func(args []string) int {
+		cont := []sched.Action{{K: "G", A: 1, B: 0}, {K: "T", A: 0}, {K: "G", A: 0, B: 2}, {K: "G", A: 2, B: 0}, {K: "G", A: 0, B: 1}}
+		seen := map[uint64]int{}
+		for i := 0; i < 30; i++ {
+			x := c08Build(args[0])
+			d0 := x.C.Digest()
+			for _, a := range cont {
+				x.Step(a)
+			}
+			seen[x.C.Digest()]++
+			_ = d0
+			x.Close()
+		}
+		fmt.Println(seen)
+		return 0
+	}
+}
